@@ -78,6 +78,10 @@ type Replica struct {
 
 // NewReplica opens a fresh application under root and runs InitChain.
 func NewReplica(name, root string, g *GenesisSpec, naccts int, emit func(J)) (*Replica, error) {
+	PowerUnit = 1
+	if g.PowerUnit > 1 {
+		PowerUnit = g.PowerUnit
+	}
 	r := &Replica{Name: name, Root: root, KR: NewKeyring(g.Seed, naccts), G: g, emit: emit, QueryAfterCommit: true}
 	app, info, err := OpenApp(filepath.Join(root, fmt.Sprintf("%s-%d", name, r.gen)))
 	if err != nil {
@@ -93,7 +97,7 @@ func NewReplica(name, root string, g *GenesisSpec, naccts int, emit func(J)) (*R
 		return nil, fmt.Errorf("InitChain failed: %v %s", err, pm)
 	}
 	ev := J{"ev": "Genesis", "replica": name, "chain": g.ChainID, "naccts": naccts, "addrRank": r.KR.ByteRank(),
-		"validators": genVals(g), "apphash": r.KR.Tok(resp.AppHash)}
+		"validators": genVals(g), "apphash": r.KR.Tok(resp.AppHash), "powerUnit": small64(PowerUnit / 1000000)}
 	if !r.NoProj {
 		ev["post"] = Project(app, r.KR, r.Opts)
 	}
@@ -104,7 +108,7 @@ func NewReplica(name, root string, g *GenesisSpec, naccts int, emit func(J)) (*R
 func genVals(g *GenesisSpec) []J {
 	out := []J{}
 	for _, v := range g.Validators {
-		out = append(out, J{"v": fmt.Sprintf("a%d", v.Acct), "pow": small(v.Power)})
+		out = append(out, J{"v": fmt.Sprintf("a%d", v.Acct), "pow": pw(v.Power)})
 	}
 	return out
 }
@@ -143,10 +147,10 @@ func (r *Replica) Exec(op *Op) J {
 		}
 		votes, evid := []J{}, []J{}
 		for _, v := range op.Hdr.Votes {
-			votes = append(votes, J{"v": r.KR.Name(unhex(v.Addr)), "pow": small(v.Power), "signed": v.Signed})
+			votes = append(votes, J{"v": r.KR.Name(unhex(v.Addr)), "pow": pw(v.Power), "signed": v.Signed})
 		}
 		for _, e := range op.Hdr.Evidence {
-			evid = append(evid, J{"v": r.KR.Name(unhex(e.Addr)), "pow": small(e.Power), "h": small(e.Height)})
+			evid = append(evid, J{"v": r.KR.Name(unhex(e.Addr)), "pow": pw(e.Power), "h": small(e.Height)})
 		}
 		ev["votes"], ev["evidence"] = votes, evid
 		var resp abcitypes.ResponseBeginBlock
@@ -197,7 +201,7 @@ func (r *Replica) Exec(op *Op) J {
 		ups := []J{}
 		for _, u := range resp.ValidatorUpdates {
 			addr, _ := crypto.PubBytes2Addr(u.PubKey.GetSecp256K1())
-			ups = append(ups, J{"v": r.KR.Name(addr), "pow": small(u.Power), "powNeg": u.Power < 0})
+			ups = append(ups, J{"v": r.KR.Name(addr), "pow": pw(u.Power), "powNeg": u.Power < 0})
 		}
 		ev["resp"] = J{"valUpdates": ups, "events": projEvents(resp.Events, r.KR)}
 		r.LastUpdates = resp.ValidatorUpdates
@@ -509,7 +513,7 @@ func (r *Replica) parseQuery(path string, resp abcitypes.ResponseQuery) (out any
 		if _, err := fmt.Sscanf(string(resp.Value), "%d", &v); err != nil {
 			return "unparsable"
 		}
-		return small(v)
+		return pw(v)
 	case "gov_params":
 		gp := &rctypes.GovParams{}
 		if err := tmjson.Unmarshal(resp.Value, gp); err != nil {
